@@ -29,9 +29,25 @@ C = {
  "C20": ("enum", ENUM, "All pairs and triples of int8/uint8, boundary sets for wider types and floats, every 8/16-bit value and every (strided in quick) 32-bit value for the digit functions, complete truth tables for the utility helpers, Coal and the identities over every argument tuple of length 0..3 for 14 types; references strconv and wide arithmetic.", "64-bit and float ranges covered by boundary sets only.", "3.C20"),
 }
 
+EXTRA = {
+ "C01": " Every observer is also asked across runs of exactly 2^8/2^16/2^17/2^20 (-1/+0/+1) changes (an answer remembered with a narrow change counter); clone independence is judged on observers with three holders at a time.",
+ "C02": " The search continues on clones.",
+ "C03": " Every constructor, Clone and the algebra again at sizes around every power of two up to 2^17; Has/Len/Slice across runs of exactly 2^k changes.",
+ "C04": " Load/Range across runs of exactly 2^k Store/Delete calls. If the concrete layout is not a function of the history the search falls back to reference-model states (reported as layout_fallback).",
+ "C06": " A second, depth-bounded search hands stale handles (orphaned by Init) to every call and follows container/list into its ill-formed states (negative Len).",
+ "C07": " Contains/Index/Get across runs of exactly 2^k changes; the call under test is the first call on a freshly constructed object.",
+ "C09": " Keys that were used 2^8 / 2^16 (-1/+0/+1) times before two or three threads contend for them.",
+ "C10": " 2^16+1 unbuffered subscribers that start receiving after the publish call began: one free-running execution per synchronous variant on the real runtime (a family member, not an exploration). Channel operations through package reflect are model operations too.",
+ "C11": " Both lookup directions across runs of exactly 2^k changes; three holders (original, clone, clone of the clone) for clone independence.",
+ "C12": " The same model at odd lengths in the millions for every function.",
+ "C15": " BinarySearchFunc over 2^62+1 .. MaxInt zero-size elements.",
+ "C20": " IsZero over every ordered triple of dynamic values under one static interface type (any, interface{IsZero() bool}, fmt.Stringer, error).",
+}
+
 checks = []
 for pid in sorted(C):
     eng, tech, text, note, ref = C[pid]
+    text += EXTRA.get(pid, "")
     checks.append({
         "property_id": pid,
         "quick_cmd": f"./vcheck.sh {pid} quick",
